@@ -42,6 +42,7 @@ func (g *Graph) KahnSort() TopoOrder {
 
 	// while S is non-empty do
 	for len(S) > 0 {
+		verifStep()
 		// remove a node n from S
 		n := S[len(S)-1]
 		S = S[:len(S)-1]
